@@ -11,7 +11,7 @@ from protocol_code_generator.type.integer_type import IntegerType
 from protocol_code_generator.type.length import Length
 from protocol_code_generator.type.string_type import StringType
 from protocol_code_generator.type.struct_type import StructType
-from protocol_code_generator.util.docstring_utils import generate_docstring
+from protocol_code_generator.util.docstring_utils import escape_docstring_text, generate_docstring
 from protocol_code_generator.util.number_utils import try_parse_int
 
 
@@ -297,7 +297,7 @@ class FieldCodeGenerator:
         result = CodeBlock()
 
         if self._comment is not None:
-            lines = map(str.strip, escape(self._comment, quote=False).split('\n'))
+            lines = map(str.strip, escape_docstring_text(self._comment).split('\n'))
             for line in lines:
                 if not result.empty:
                     result.add(' ')
